@@ -81,8 +81,11 @@ example : (['S', 'U', 'M', '(', 'A', '1', ')'] : List Char).length ≤ 7 := by d
 /-- **Lexer invariant** (induction on characters, every state, every input): as long as the
     machine has not panicked, what it has consumed is exactly what its tokens render to plus the
     pending accumulator, where each consumed character contributes itself — except a blank that
-    directly follows a blank outside literals (skipped), and `{` `;` `}` outside literals, which
-    the machine turns into `ARRAY(ARRAYROW(` / `),ARRAYROW(` / `))` (known finding C09-array-const). -/
+    directly follows a blank outside literals (skipped), and the three characters `)` `;` `}` that
+    pop the token stack: they contribute what the popped tokens close with (`emitNormal`), which is
+    the character itself exactly when `)` closes a parenthesis and `;` / `}` stand directly inside
+    the braces of an array constant (`scanNormal_emit`; fix f50ad32: the `ARRAY` / `ARRAYROW` pseudo
+    functions render as `{` `;` `}`). -/
 theorem C09_lex_invariant (s : List Char) (st : LexSt) (hi : Inv st)
     (hnd : (s.foldl step st).mode ≠ .dead) :
     out (s.foldl step st) = out st ++ echo st s ∧ Inv (s.foldl step st) :=
@@ -105,15 +108,16 @@ theorem C09_lex1_render (s : List Char) (toks : List Tok) (lv : List Char)
     exact ho
 
 /-- **No panic**: on every input accepted by the independent scanner `Spec.Clean` (closed string
-    literals / quoted names / brackets / error literals, balanced parentheses, commas only inside
-    parentheses, no array constant) the tokenizer returns a token list — no `unwrap` on an empty
+    literals / quoted names / brackets / error literals, balanced and properly nested parentheses
+    and braces, commas only inside them, semicolons only directly inside braces — array constants
+    included) the tokenizer returns a token list — no `unwrap` on an empty
     stack in pass 1, no `nth(0).unwrap()` in pass 3. -/
 theorem C09_no_panic (s : List Char) (h : Spec.Clean s = true) : ∃ toks, parse ('=' :: s) = .ok toks := by
   cases s with
   | nil => exact ⟨[], rfl⟩
   | cons c r =>
     unfold Spec.Clean Spec.scan at h
-    cases hsc : Spec.scanFrom ⟨.normal, 0⟩ (c :: r) with
+    cases hsc : Spec.scanFrom ⟨.normal, []⟩ (c :: r) with
     | none => simp [hsc] at h
     | some res =>
       have hsim := scan_sim (c :: r) _ _ sim_init res hsc
@@ -131,8 +135,9 @@ theorem C09_no_panic (s : List Char) (h : Spec.Clean s = true) : ∃ toks, parse
 /-- **Identity, PARTIAL.**  Full statement wanted: for every `Clean s`, with `t := parse ('=' :: s)`:
     `BlankErasure s (render t)` and `parse ('=' :: render t) = t`.
     Proved: the first half — the rendered text is the input with blanks deleted and nothing else
-    changed (every string literal, sheet qualifier, name, number, reference and operator character
-    for character identical) — for every `Clean s`, under one explicit side condition on the
+    changed (every string literal, sheet qualifier, name, number, reference, operator, and every
+    brace, comma and semicolon of an array constant character for character identical) — for every
+    `Clean s` (array constants included since fix f50ad32), under one explicit side condition on the
     pass-1 output: no function name starts with `@` (pass 3 strips it: `=@SUM(A1)` loses the `@`).
     Missing: the second half (re-tokenising the result gives the same tokens) — harness oracle only. -/
 theorem C09_identity_partial (s : List Char) (h : Spec.Clean s = true) (hne : s ≠ [])
@@ -145,7 +150,7 @@ theorem C09_identity_partial (s : List Char) (h : Spec.Clean s = true) (hne : s 
   | nil => exact absurd rfl hne
   | cons c r =>
     unfold Spec.Clean Spec.scan at h
-    cases hsc : Spec.scanFrom ⟨.normal, 0⟩ (c :: r) with
+    cases hsc : Spec.scanFrom ⟨.normal, []⟩ (c :: r) with
     | none => simp [hsc] at h
     | some res =>
       simp only [hsc, Bool.and_eq_true, decide_eq_true_eq] at h
@@ -176,11 +181,14 @@ theorem C09_identity_partial (s : List Char) (h : Spec.Clean s = true) (hne : s 
       have hall : AllOk toks1 := by
         rw [← hfin.1]
         exact finish_allOk _ (lex_allOk (c :: r) {} inv_init (by intro t ht; simp at ht) hnd)
+      have hplain : AllPlain toks1 := by
+        rw [← hfin.1]
+        exact finish_allPlain _ (lex_allPlain (c :: r) {} inv_init (by intro t ht; simp at ht) hnd)
       have hlv : lv ≠ ['-'] ∧ lv ≠ ['+'] := by
         rw [← hfin.2]
         exact finish_notSign _ (lex_vinv (c :: r) {} vinv_init) hclosed
       simp only [parse, hl, pass3, pass2] at hp
-      have hr3 := pass3Go_render _ _ none (pass2_stable toks1 lv hall hat hlv) hp
+      have hr3 := pass3Go_render _ _ none (pass2_stable toks1 lv hall hplain hat hlv) hp
       rw [hr3]
       have h2 := pass2_erasure toks1 none lv
       rw [h1] at h2
@@ -190,21 +198,44 @@ theorem C09_identity_partial (s : List Char) (h : Spec.Clean s = true) (hne : s 
     expression of the grammar.  Proved for every expression (unbounded depth: operators, unary
     signs, percent, nested calls with empty arguments, unions, intersections, parentheses, string
     literals with any content, error literals, names, numbers, well-formed references with quoted
-    or plain qualifiers) WITHOUT opaque atoms: array constants are rejected by `Clean` on purpose
-    (known finding C09-array-const), structured / unquoted external references are covered only
-    by the `clean` requests of the correspondence stream. -/
+    or plain qualifiers, array constants `{a,b;c,d}` of numbers / negative numbers / strings /
+    booleans / error literals with any number of rows and elements) WITHOUT opaque atoms:
+    structured / unquoted external references are covered only by the `clean` requests of the
+    correspondence stream. -/
 theorem C09_clean_partial (e : Spec.Expr) (h : e.Lexical) : Spec.Clean e.print = true := by
-  obtain ⟨m, h1, h2⟩ := Spec.scan_expr e h 0
+  obtain ⟨m, h1, h2⟩ := Spec.scan_expr e h []
   simp [Spec.Clean, Spec.scan, h1, h2]
 
 /-- hence the tokenizer never panics on a printed expression of that grammar -/
 theorem C09_no_panic_ast (e : Spec.Expr) (h : e.Lexical) : ∃ toks, parse ('=' :: e.print) = .ok toks :=
   C09_no_panic e.print (C09_clean_partial e h)
 
-/-- non-vacuity: `IF(A1>=2,"a""b",'My Sheet'!$B$2)` is accepted by the scanner; `A1,B1` and `{1}` are not -/
+/-- non-vacuity: `IF(A1>=2,"a""b",'My Sheet'!$B$2)` and `SUM({1,-2;"a;b",#N/A}*A1:B2)` are accepted by the
+    scanner; `A1,B1`, `{1`, `1;2`, `(1}` and `SUM(1;2)` are not -/
 example : Spec.Clean ['I', 'F', '(', 'A', '1', '>', '=', '2', ',', '"', 'a', '"', '"', 'b', '"', ',', '\'', 'M', 'y', ' ',
     'S', '\'', '!', '$', 'B', '$', '2', ')'] = true ∧ Spec.Clean ['A', '1', ',', 'B', '1'] = false ∧
-    Spec.Clean ['{', '1', '}'] = false := by decide
+    Spec.Clean "SUM({1,-2;\"a;b\",#N/A}*A1:B2)".toList = true ∧
+    Spec.Clean ['{', '1'] = false ∧ Spec.Clean ['1', ';', '2'] = false ∧ Spec.Clean ['(', '1', '}'] = false ∧
+    Spec.Clean "SUM(1;2)".toList = false := by decide
+
+/-- **Array constants, witnessed** (were known finding C09-array-const): the model of the repaired
+    code renders `SUM({1,-2;"a;b",#N/A}*A1:B2)` character for character, a blank inside the braces
+    disappears and nothing else, and a function that is literally called `ARRAY` is a function. -/
+example :
+    (parse "=SUM({1,-2;\"a;b\",#N/A}*A1:B2)".toList).bind (fun t => .ok (render t)) = .ok "SUM({1,-2;\"a;b\",#N/A}*A1:B2)".toList ∧
+    (parse "={1, 2; 3}".toList).bind (fun t => .ok (render t)) = .ok "{1,2;3}".toList ∧
+    (parse "=ARRAY(ARRAYROW(1,2))".toList).bind (fun t => .ok (render t)) = .ok "ARRAY(ARRAYROW(1,2))".toList := by decide
+
+/-- the array constant of the witness as an expression of the grammar: it is `Lexical`, so
+    `C09_clean_partial` / `C09_no_panic_ast` / `C09_identity_partial` apply to it -/
+example : (Spec.Expr.array [[.num false ['1'], .num true ['2']], [.str ['a', ';', 'b'], .err .na]]).Lexical ∧
+    (Spec.Expr.array [[.num false ['1'], .num true ['2']], [.str ['a', ';', 'b'], .err .na]]).print
+      = "{1,-2;\"a;b\",#N/A}".toList := by
+  refine ⟨?_, by decide⟩
+  intro r hr c hc
+  simp at hr
+  rcases hr with hr | hr <;> subst hr <;> simp at hc <;> rcases hc with hc | hc <;> subst hc <;>
+    simp [Spec.Const.Lexical, Spec.plainText, Spec.isPlainChar]
 
 /-- non-vacuity of the invariant: the initial state satisfies it -/
 example : Inv {} := inv_init
